@@ -469,6 +469,16 @@ def run_part(pid, tier, seed, wd):
             for s_ in made:
                 f.write(json.dumps(s_) + "\n")
         batches.append((fam, ["--scripts", fpath]))
+    # the schedules of the registered findings of this part are replayed every time (each is reported as a
+    # KNOWN-FINDING as long as the library behaves that way, and as nothing once it is repaired)
+    kpath = os.path.join(wd, "splice-scripts-known.ndjson")
+    import glob
+    kfiles = sorted(glob.glob(os.path.join(vlib.ROOT if hasattr(vlib, "ROOT") else os.path.join(os.path.dirname(os.path.abspath(__file__)), ".."), "findings", "splice-*.script.ndjson")))
+    if kfiles:
+        with open(kpath, "w") as f:
+            for kf in kfiles:
+                f.write(open(kf).read().strip() + "\n")
+        batches.append(("known", ["--scripts", kpath]))
     for name, nodes, runs in ([("default", 2, 30), ("restart", 2, 25), ("async", 2, 25), ("default", 3, 16), ("restart", 3, 12)] if not thorough else
                               [("default", 2, 150), ("restart", 2, 120), ("async", 2, 120), ("default", 3, 80), ("restart", 3, 60), ("async", 3, 60)]):
         batches.append(("%s%d" % (name, nodes), ["--random", runs, "--nodes", nodes, "--profile", name]))
